@@ -40,6 +40,9 @@ func (s State) String() string {
 	return "Unknown"
 }
 
+// maxLineLength bounds the length of a single line of a stored message sent by RETR/TOP.
+const maxLineLength = 1 << 30
+
 var commands = map[string]bool{
 	"QUIT": true,
 	"STAT": true,
@@ -488,6 +491,8 @@ func (s *Session) sendMessage(msg storage.Message) {
 	}()
 
 	scanner := bufio.NewScanner(reader)
+	// A line may be as long as the message; the scanner's default limit is 64 KiB.
+	scanner.Buffer(make([]byte, 0, 64*1024), maxLineLength)
 	for scanner.Scan() {
 		line := scanner.Text()
 		// Lines starting with . must be prefixed with another .
@@ -521,6 +526,8 @@ func (s *Session) sendMessageTop(msg storage.Message, lineCount int) {
 	}()
 
 	scanner := bufio.NewScanner(reader)
+	// A line may be as long as the message; the scanner's default limit is 64 KiB.
+	scanner.Buffer(make([]byte, 0, 64*1024), maxLineLength)
 	inBody := false
 	for scanner.Scan() {
 		line := scanner.Text()
